@@ -21,7 +21,7 @@ RULE = ('cases are histories of 3-8 signing operations, each followed by a contr
         'peer\'s view of signer/hash input/integers changed) reached PGPKey.verify and its verdict was compared with the '
         'ledger; distinct = distinct (signature kind, fault kind) multisets among non-trivial runs')
 TIERS = {'quick': {'runs': 3000, 'budget_s': 80}, 'thorough': {'runs': 250000, 'budget_s': 1500}}
-PROBES = ('ecdh_kdf_parameters_altered', 'subject_key_in_private_form', 'verified_after_signature_expiry', 'backsig_replayed_under_other_primary', 'str_subject_with_lone_surrogate', 'issuer_rewrite_to_encryption_subkey', 'control_verified', 'ledger_entry_not_ref_valid', 'control_failed', 'nonsemantic_skipped', 'mutant_rejected_raise', 'mutant_rejected_falsy',
+PROBES = ('cleartext_line_end_other_whitespace', 'ecdh_kdf_parameters_altered', 'subject_key_in_private_form', 'verified_after_signature_expiry', 'backsig_replayed_under_other_primary', 'str_subject_with_lone_surrogate', 'issuer_rewrite_to_encryption_subkey', 'control_verified', 'ledger_entry_not_ref_valid', 'control_failed', 'nonsemantic_skipped', 'mutant_rejected_raise', 'mutant_rejected_falsy',
           'ref_unparsable_skipped', 'splice_cross_history', 'issuer_rewrite', 'subkey_signer', 'msg_multi_signer',
           'verifier_behind_signer', 'sig_expired_at_verify')
 FAULTS = ('sig_mpi_widen', 'sig_flip_hdr', 'sig_flip_hlen', 'sig_flip_hashed', 'sig_flip_mpi', 'sig_type', 'sig_halg', 'sig_pkalg', 'issuer_rewrite',
@@ -429,6 +429,17 @@ def mutate(art, d, w, history, ctx):
             vis = [i for i, ch in enumerate(body) if ch.isalnum()]
             if not vis:
                 return None
+            if d['alt'] % 3 == 0:
+                # a white-space character other than space and tab put at (or taken from) the end of a line: RFC 4880 7.1 leaves
+                # only trailing spaces and tabs unsigned
+                ends = [m.end() for m in __import__('re').finditer(r'[^\s]$', body, __import__('re').M)]
+                if not ends:
+                    return None
+                e = ends[int(pos * len(ends)) % len(ends)]
+                ws = ['\xa0', '\u3000', '\x0c', '\x0b', '\u2000', '\x1f', '\x85', '\u202f'][(d['alt'] // 3) % 8]
+                s['armored'] = txt[:head] + body[:e] + ws + body[e:] + txt[tail - 1:]
+                ctx.probe('cleartext_line_end_other_whitespace')
+                return a, False
             i = vis[int(pos * len(vis)) % len(vis)]
             ch = body[i]
             nb = body[:i] + ('x' if ch != 'x' else 'y') + body[i + 1:]
